@@ -48,8 +48,7 @@ class Bag(object):
         bag.dicts.clear()
         for entity, objects in bag.objects.items():
             for obj in objects:
-                dicts = bag.dicts[entity]
-                if obj not in dicts: bag._process_object(obj)
+                bag._process_object(obj)
         result = defaultdict(dict)
         for entity, dicts in bag.dicts.items():
             composite_pk = len(entity._pk_columns_) > 1
@@ -62,6 +61,8 @@ class Bag(object):
         return result
     def _process_object(bag, obj, process_related=True):
         entity = obj.__class__
+        if not process_related and (obj in bag.dicts[entity] or obj in bag.objects.get(entity, ())):
+            return  # already described, or given itself: the full description wins
         try: attrs, related_objects = bag.entity_configs[entity]
         except KeyError: attrs, related_objects = bag.config(entity)
         process_related_objects = process_related and related_objects
@@ -73,8 +74,7 @@ class Bag(object):
                     continue
                 if process_related_objects:
                     for related_obj in value:
-                        if related_obj not in bag.dicts:
-                            bag._process_object(related_obj, process_related=False)
+                        bag._process_object(related_obj, process_related=False)
                 if attr.reverse.entity._pk_is_composite_:
                     value = sorted(bag._reduce_composite_pk(item._get_raw_pkval_()) for item in value)
                 else: value = sorted(item._get_raw_pkval_()[0] for item in value)
